@@ -285,6 +285,8 @@ class ModeDReader(MeterReaderBase[DataReadout]):
         while True:
             line = self._buffer.pop()
             if line is None:
+                # Consumed lines are not needed any more. Keep only the incomplete last line.
+                self._buffer.trim_buffer_to_current_position()
                 return readouts_received
 
             if self.is_in_hunt_mode:
